@@ -91,6 +91,11 @@ func (s *metricSchemaStore) genFieldID(id metric.ID, f field.Meta, limits *model
 	s.lock.Lock()
 	defer s.lock.Unlock()
 
+	// another creator may have registered a schema of this metric since it was looked up,
+	// all creators must append to one and the same schema
+	if cur := s.getSchemaFromMemWithoutLock(id); cur != nil {
+		schema = cur
+	}
 	if schema == nil {
 		// create new schema
 		schema = &metric.Schema{}
@@ -124,6 +129,11 @@ func (s *metricSchemaStore) genTagKeyID(id metric.ID, tagKey []byte, limits *mod
 	s.lock.Lock()
 	defer s.lock.Unlock()
 
+	// another creator may have registered a schema of this metric since it was looked up,
+	// all creators must append to one and the same schema
+	if cur := s.getSchemaFromMemWithoutLock(id); cur != nil {
+		schema = cur
+	}
 	if schema == nil {
 		// create new schema
 		schema = &metric.Schema{}
@@ -168,6 +178,14 @@ func (s *metricSchemaStore) getSchemaFromKV(id metric.ID) (schema *metric.Schema
 
 // getSchemaFromMem gets schema from mem store.
 func (s *metricSchemaStore) getSchemaFromMem(id metric.ID) *metric.Schema {
+	s.lock.RLock()
+	defer s.lock.RUnlock()
+
+	return s.getSchemaFromMemWithoutLock(id)
+}
+
+// getSchemaFromMemWithoutLock gets schema from mem store, invoker must hold the lock.
+func (s *metricSchemaStore) getSchemaFromMemWithoutLock(id metric.ID) *metric.Schema {
 	key := uint32(id)
 	getValue := func(mem *imap.IntMap[*metric.Schema]) *metric.Schema {
 		if mem == nil {
@@ -176,9 +194,6 @@ func (s *metricSchemaStore) getSchemaFromMem(id metric.ID) *metric.Schema {
 		schema, _ := mem.Get(key)
 		return schema
 	}
-
-	s.lock.RLock()
-	defer s.lock.RUnlock()
 
 	schema := getValue(s.mutable)
 	if schema != nil {
